@@ -34,12 +34,57 @@
                                drop_table removes the row and then fails                        *)
 EXTENDS Naturals, Sequences, FiniteSets, TLC, Json
 
-CONSTANTS NameSet,      \* which names are in play (cfg files cannot hold tuples): see NamesOf
+CONSTANTS Family,       \* which setups this run explores (see FamilyOf); "single" = the five constants below
+          NameSet,      \* which names are in play (cfg files cannot hold tuples): see NameSeqOf
           Mode,         \* "dir" | "manifest" | "dual"
           MaxSteps,
           MaxLen,       \* longest table id (2: tables in the root and in depth-1 namespaces; 3: depth 2)
           OpKinds,      \* subset of {"ns", "table", "register", "read", "list", "reopen"}
           Deviations
+
+\* A run explores a family of setups (one TLC process for several small universes: the JVM start dominates
+\* otherwise).  The setup is chosen in Init and never changes.
+VARIABLE setup          \* [k, names, mode, ops, devs, depth, maxlen, want]
+Setup(k, n, m, o, d, st, ml) == [k |-> k, names |-> n, mode |-> m, ops |-> o, devs |-> d, depth |-> st, maxlen |-> ml, want |-> {}]
+\* a setup that must break the properties in `want` (1 CatalogIsMap, 2 UnfaithfulNamesRejected, 3 PagingCoversOnce, 4 OperationsAreLocal)
+Wanted(s, w) == [s EXCEPT !.want = w]
+MUT    == {"ns", "table", "register"}
+ALLOPS == {"ns", "table", "register", "read", "list", "reopen"}
+DIROPS == {"table", "list", "reopen", "read"}
+TLR    == {"table", "list", "reopen"}
+AsBuilt == {"DelimiterNameAccepted", "QuoteNameInterpolated", "KindBlindLookup", "PageTruncatedNoToken", "PathEncodingMismatch"}
+FamilyOf(f) ==
+  CASE f = "single" -> {Setup(1, NameSet, Mode, OpKinds, Deviations, MaxSteps, MaxLen)}
+    \* the intended design, quick tier
+    [] f = "intended-quick" ->
+         {Setup(1, "dollar", "manifest", {"ns", "table"}, {}, 3, 2), Setup(2, "quote", "dual", MUT, {}, 2, 2),
+          Setup(3, "path", "dir", TLR, {}, 3, 2), Setup(4, "plain", "dual", {"table", "list"}, {}, 3, 2),
+          Setup(5, "uni", "manifest", ALLOPS, {}, 2, 2)}
+    \* the intended design, thorough tier (three processes)
+    [] f = "intended-a" -> {Setup(1, "dollar", "manifest", MUT, {}, 4, 2), Setup(2, "path", "dir", TLR, {}, 4, 2), Setup(3, "plain", "manifest", ALLOPS, {}, 3, 2)}
+    [] f = "intended-b" -> {Setup(1, "quote", "manifest", MUT, {}, 4, 2), Setup(2, "plain", "dual", {"table", "list", "register"}, {}, 4, 2),
+                            Setup(3, "mixed", "dual", MUT, {}, 3, 2)}
+    [] f = "intended-c" -> {Setup(1, "uni", "dual", MUT, {}, 4, 2), Setup(2, "plain", "manifest", MUT, {}, 4, 3), Setup(3, "path", "dual", ALLOPS, {}, 3, 2),
+                            Setup(4, "dollar", "dual", ALLOPS, {}, 3, 2)}
+    \* one deviation each: must break the properties named in lib/checks/c36.py
+    [] f = "witness" ->
+         {Wanted(Setup(1, "dollar", "manifest", MUT, {"DelimiterNameAccepted"}, 3, 2), {1, 2, 4}),
+          Wanted(Setup(2, "quote", "manifest", MUT, {"QuoteNameInterpolated"}, 3, 2), {1, 4}),
+          Wanted(Setup(3, "plain", "manifest", {"ns", "table"}, {"KindBlindLookup"}, 3, 2), {1}),
+          Wanted(Setup(4, "plain", "dual", {"table", "list"}, {"PageTruncatedNoToken"}, 3, 2), {3}),
+          Wanted(Setup(5, "path", "dir", {"table"}, {"PathEncodingMismatch"}, 2, 2), {2}),
+          Wanted(Setup(6, "uni", "manifest", {"table"}, {"PathEncodingMismatch"}, 2, 2), {1})}
+    \* the code as built, for generating longer histories by simulation
+    [] f = "asbuilt" ->
+         {Setup(1, "dollar", "manifest", ALLOPS, AsBuilt, MaxSteps, MaxLen), Setup(2, "dollar", "dual", ALLOPS, AsBuilt, MaxSteps, MaxLen),
+          Setup(3, "quote", "manifest", ALLOPS, AsBuilt, MaxSteps, MaxLen), Setup(4, "quote", "dual", ALLOPS, AsBuilt, MaxSteps, MaxLen),
+          Setup(5, "path", "dir", DIROPS, AsBuilt, MaxSteps, MaxLen), Setup(6, "path", "dual", ALLOPS, AsBuilt, MaxSteps, MaxLen),
+          Setup(7, "path", "manifest", ALLOPS, AsBuilt, MaxSteps, MaxLen), Setup(8, "uni", "dir", DIROPS, AsBuilt, MaxSteps, MaxLen),
+          Setup(9, "uni", "dual", ALLOPS, AsBuilt, MaxSteps, MaxLen), Setup(10, "uni", "manifest", ALLOPS, AsBuilt, MaxSteps, MaxLen),
+          Setup(11, "mixed", "manifest", ALLOPS, AsBuilt, MaxSteps, MaxLen), Setup(12, "mixed", "dual", ALLOPS, AsBuilt, MaxSteps, MaxLen),
+          Setup(13, "plain", "dir", DIROPS, AsBuilt, MaxSteps, MaxLen), Setup(14, "plain", "dual", ALLOPS, AsBuilt, MaxSteps, MaxLen)}
+TheMode == setup.mode
+Devs == setup.devs
 
 A    == <<"a">>
 B    == <<"b">>
@@ -56,15 +101,15 @@ NameSeqOf(s) == CASE s = "plain"  -> <<A, B>>
                   [] s = "uni"    -> <<A, B, EAC>>
                   [] s = "mixed"  -> <<A, AB, AQ, B>>
                   [] s = "all"    -> <<A, AB, AQ, INJ, ADOT, ASL, B, EAC>>
-NameSeq == NameSeqOf(NameSet)                 \* also the listing order
+NameSeq == NameSeqOf(setup.names)             \* also the listing order
 Names == {NameSeq[i] : i \in 1..Len(NameSeq)}
 
 Has(n, t) == \E i \in 1..Len(n) : n[i] = t
 IdsOfLen(k) == [1..k -> Names]
 NsIds == IdsOfLen(1) \cup IdsOfLen(2)
-TableIds == UNION {IdsOfLen(k) : k \in 1..MaxLen}
+TableIds == UNION {IdsOfLen(k) : k \in 1..setup.maxlen}
 AllIds == NsIds \cup TableIds
-Paths == {<<>>} \cup {p \in NsIds : Len(p) < MaxLen}
+Paths == {<<>>} \cup {p \in NsIds : Len(p) < setup.maxlen}
 Parent(id) == SubSeq(id, 1, Len(id) - 1)
 Leaf(id) == id[Len(id)]
 IsPrefix(p, s) == Len(p) <= Len(s) /\ SubSeq(s, 1, Len(p)) = p
@@ -72,13 +117,13 @@ IsPrefix(p, s) == Len(p) <= Len(s) /\ SubSeq(s, 1, Len(p)) = p
 (***************************************************************************)
 (* Which names the design refuses                                          *)
 (***************************************************************************)
-Manifested == Mode \in {"manifest", "dual"}
+Manifested == TheMode \in {"manifest", "dual"}
 ValidName(n) ==
-  /\ (Has(n, "$") => "DelimiterNameAccepted" \in Deviations \/ ~Manifested)
-  /\ (Has(n, "'") => "QuoteNameInterpolated" \in Deviations \/ ~Manifested)
-  /\ (Has(n, "/") => "PathEncodingMismatch" \in Deviations \/ Mode # "dir")
+  /\ (Has(n, "$") => "DelimiterNameAccepted" \in Devs \/ ~Manifested)
+  /\ (Has(n, "'") => "QuoteNameInterpolated" \in Devs \/ ~Manifested)
+  /\ (Has(n, "/") => "PathEncodingMismatch" \in Devs \/ TheMode # "dir")
 ValidId(id) == \A i \in 1..Len(id) : ValidName(id[i])
-Mismatch(id) == "PathEncodingMismatch" \in Deviations /\ \E i \in 1..Len(id) : Has(id[i], "/") \/ Has(id[i], "U+00E9")
+Mismatch(id) == "PathEncodingMismatch" \in Devs /\ \E i \in 1..Len(id) : Has(id[i], "/") \/ Has(id[i], "U+00E9")
 
 (***************************************************************************)
 (* The meaning: a map                                                      *)
@@ -115,7 +160,7 @@ Contains(rw, q) == \E r \in rw : MatchAny(q, r)                       \* manifes
 Query(rw, q, k) ==                                                     \* query_manifest_for_table / _namespace
   LET m == {r \in rw : MatchTyped(q, r, k)} IN
   IF Broken(q) \/ Cardinality(m) > 1 THEN ERRROW ELSE IF m = {} THEN NOROW ELSE CHOOSE r \in m : TRUE
-Blind == "KindBlindLookup" \in Deviations
+Blind == "KindBlindLookup" \in Devs
 \* "an object of kind k with this id exists", as the call sites decide it
 IHas(rw, id, k) == IF Blind THEN Contains(rw, Enc(id)) ELSE Query(rw, Enc(id), k).kind = k
 IErr(id) == Broken(Enc(id))
@@ -141,22 +186,25 @@ MAns(c, id) == [te |-> IF MKind(c, id) = "table" THEN "yes" ELSE "no",
                 dn |-> MKind(c, id) = "ns"]
 
 VARIABLES cat, rows, known, nextLoc, steps, last, hist
-vars == <<cat, rows, known, nextLoc, steps, last, hist>>
-view == <<cat, rows, known, nextLoc, steps, last>>
+vars == <<setup, cat, rows, known, nextLoc, steps, last, hist>>
+view == <<setup, cat, rows, known, nextLoc, steps, last>>
 
 NoPages == <<>>
 Init ==
+  /\ setup \in FamilyOf(Family)
+  /\ \A i \in 1..100 : TLCSet(i, 0)          \* registers of the witness printer (WitOnce)
   /\ cat = <<>> /\ rows = {} /\ known = <<>> /\ nextLoc = 1 /\ steps = 0
   /\ last = [op |-> "init", id |-> <<>>, m |-> "ok", i |-> "ok", pages |-> NoPages, listing |-> {}]
   /\ hist = <<>>
 
 Supported(op, id) ==
-  IF Mode = "dir" THEN op \in {"create_table", "create_empty_table", "drop_table", "describe_table", "table_exists", "list_tables", "reopen"}
+  IF TheMode = "dir" THEN op \in {"create_table", "create_empty_table", "drop_table", "describe_table", "table_exists", "list_tables", "reopen"}
                        /\ (op = "list_tables" \/ op = "reopen" \/ Len(id) = 1) /\ (op = "list_tables" => id = <<>>)
   ELSE TRUE
 
 Record(rec, op, id, m, i, pages, listing) ==
-  /\ steps' = steps + 1 /\ hist' = Append(hist, rec)
+  /\ UNCHANGED setup
+  /\ steps' = steps + 1 /\ hist' = Append(hist, rec @@ [r |-> i])     \* r: what the design answers (used to pick productive histories)
   /\ last' = [op |-> op, id |-> id, m |-> m, i |-> i, pages |-> pages, listing |-> listing]
 Unsupported(rec, op, id) ==
   /\ Record(rec, op, id, "unsupported", "unsupported", NoPages, {})
@@ -164,7 +212,7 @@ Unsupported(rec, op, id) ==
 Rejected(rec, op, id) ==          \* a name the design refuses: refused by every call, nothing changes
   /\ Record(rec, op, id, "rejected", "rejected", NoPages, {})
   /\ UNCHANGED <<cat, rows, known, nextLoc>>
-Guard(kind) == steps < MaxSteps /\ kind \in OpKinds
+Guard(kind) == steps < setup.depth /\ kind \in setup.ops
 
 (***************************************************************************)
 (* Namespaces                                                              *)
@@ -209,7 +257,7 @@ CreateTable(id, empty, strict) ==
      ELSE IF ~ValidId(id) THEN Rejected(rec, op, id)
      ELSE LET mok == id \notin DOMAIN cat /\ (strict => MParentsOK(cat, id))
               iok == ~IErr(id) /\ ~Contains(rows, Enc(id)) /\ (strict => IParentsOK(rows, id))
-              lost == Mismatch(id) /\ Mode = "dir" IN      \* written where no lookup finds it
+              lost == Mismatch(id) /\ TheMode = "dir" IN      \* written where no lookup finds it
           /\ cat' = IF mok THEN Put(cat, id, [kind |-> "table", loc |-> nextLoc]) ELSE cat
           /\ rows' = IF iok /\ ~lost THEN rows \cup {[oid |-> Enc(id), kind |-> "table", loc |-> nextLoc]} ELSE rows
           /\ known' = IF mok \/ iok THEN Put(known, id, nextLoc) ELSE known
@@ -225,7 +273,7 @@ DropTable(id, dereg) ==
      ELSE LET mok == MKind(cat, id) = "table"
               found == Query(rows, Enc(id), "table").kind = "table"
               \* drop_table deletes the row, then fails to remove the directory it cannot address
-              iok == found /\ ~(Mismatch(id) /\ ~dereg /\ Mode # "dir") IN
+              iok == found /\ ~(Mismatch(id) /\ ~dereg /\ TheMode # "dir") IN
           /\ cat' = IF mok THEN Del(cat, id) ELSE cat
           /\ rows' = IF found THEN {r \in rows : ~MatchAny(Enc(id), r)} ELSE rows
           /\ Record(rec, op, id, IF mok THEN "ok" ELSE "err", IF iok THEN "ok" ELSE "err", NoPages, {})
@@ -274,7 +322,7 @@ List(op, p, L) ==
       k == IF op = "list_tables" THEN "table" ELSE "ns"
       il == IList(rows, p, k)
       ierr == il = {<<"!err">>}
-      trunc == "PageTruncatedNoToken" \in Deviations /\ op = "list_tables" /\ p = <<>> /\ Mode # "manifest" IN
+      trunc == "PageTruncatedNoToken" \in Devs /\ op = "list_tables" /\ p = <<>> /\ TheMode # "manifest" IN
   /\ Guard("list") /\ p \in Paths /\ MIsNs(cat, p)
   /\ IF ~Supported(op, p) THEN Unsupported(rec, op, p)
      ELSE IF ~ValidId(p) THEN Rejected(rec, op, p)
@@ -301,7 +349,7 @@ Spec == Init /\ [][Next]_vars
 (***************************************************************************)
 (* Properties (names are the finding signatures)                           *)
 (***************************************************************************)
-TypeOK == /\ DOMAIN cat \subseteq AllIds /\ steps \in 0..MaxSteps
+TypeOK == /\ DOMAIN cat \subseteq AllIds /\ steps \in 0..setup.depth
           /\ \A id \in DOMAIN cat : cat[id].kind \in {"ns", "table"}
           /\ \A r \in rows : r.kind \in {"ns", "table"}
 
@@ -313,15 +361,6 @@ CatalogIsMap ==
   /\ \A p \in Paths : (ValidId(p) /\ MIsNs(cat, p)) =>
         /\ IList(rows, p, "table") = MChildren(cat, p, "table")
         /\ IList(rows, p, "ns") = MChildren(cat, p, "ns")
-
-\* a step on one id never changes an answer for another id, nor a listing of another parent, and changes
-\* the parent's listing by that name only
-OperationsAreLocal ==
-  [][LET s == last'.id IN
-     /\ \A id \in AllIds : (id # s /\ ValidId(id)) => IAns(rows', id) = IAns(rows, id)
-     /\ \A p \in Paths : ValidId(p) => \A k \in {"table", "ns"} :
-          LET a == IList(rows, p, k) b == IList(rows', p, k) IN
-          IF Len(s) > 0 /\ p = Parent(s) THEN (a \ b) \cup (b \ a) \subseteq {Leaf(s)} ELSE a = b]_vars
 
 \* a name is refused, or it round-trips exactly through exists / describe / list
 UnfaithfulNamesRejected ==
@@ -337,21 +376,32 @@ PagingCoversOnce ==
      /\ {f[i] : i \in 1..Len(f)} = last.listing
      /\ \A i, j \in 1..Len(f) : f[i] = f[j] => i = j
 
-\* the same properties for the as-built configurations: a violating state prints its history as a witness
-\* scenario ("WIT"), which the check replays on the real code
-Wit == PrintT(<<"WIT", ToJson(hist)>>) /\ FALSE
-CatalogIsMapW == CatalogIsMap \/ Wit
-UnfaithfulNamesRejectedW == UnfaithfulNamesRejected \/ Wit
-PagingCoversOnceW == PagingCoversOnce \/ Wit
-OperationsAreLocalW ==
-  [][(LET s == last'.id IN
-      /\ \A id \in AllIds : (id # s /\ ValidId(id)) => IAns(rows', id) = IAns(rows, id)
-      /\ \A p \in Paths : ValidId(p) => \A k \in {"table", "ns"} :
-           LET a == IList(rows, p, k) b == IList(rows', p, k) IN
-           IF Len(s) > 0 /\ p = Parent(s) THEN (a \ b) \cup (b \ a) \subseteq {Leaf(s)} ELSE a = b)
-     \/ (PrintT(<<"WIT", ToJson(hist')>>) /\ FALSE)]_vars
+\* a step on one id never changes an answer for another id, nor a listing of another parent, and changes
+\* the parent's listing by that name only
+LocalStep ==
+  LET s == last'.id IN
+  /\ \A id \in AllIds : (id # s /\ ValidId(id)) => IAns(rows', id) = IAns(rows, id)
+  /\ \A p \in Paths : ValidId(p) => \A k \in {"table", "ns"} :
+       LET a == IList(rows, p, k) b == IList(rows', p, k) IN
+       IF Len(s) > 0 /\ p = Parent(s) THEN (a \ b) \cup (b \ a) \subseteq {Leaf(s)} ELSE a = b
+OperationsAreLocal == [][LocalStep]_vars
+
+\* The same properties for the as-built setups: the first violating state of each (setup, property) prints its
+\* history as a witness scenario ("WIT"), which the check replays on the real code; the run goes on (one TLC
+\* process reports every deviation).  Single worker only (TLCGet / TLCSet registers are per worker).
+WitOnce(slot, inv, h) ==
+  IF TLCGet(setup.k * 10 + slot) = 0
+  THEN TLCSet(setup.k * 10 + slot, 1) /\ PrintT(<<"WIT", ToJson([inv |-> inv, devs |-> setup.devs, names |-> setup.names,
+                                                                     mode |-> setup.mode, hist |-> h])>>)
+  ELSE TRUE
+\* CONSTRAINT of the witness run: a setup is explored until everything it must break has been witnessed
+StillWanted == setup.want = {} \/ \E w \in setup.want : TLCGet(setup.k * 10 + w) = 0
+CatalogIsMapW == CatalogIsMap \/ WitOnce(1, "CatalogIsMap", hist)
+UnfaithfulNamesRejectedW == UnfaithfulNamesRejected \/ WitOnce(2, "UnfaithfulNamesRejected", hist)
+PagingCoversOnceW == PagingCoversOnce \/ WitOnce(3, "PagingCoversOnce", hist)
+OperationsAreLocalW == [][LocalStep \/ WitOnce(4, "OperationsAreLocal", hist')]_vars
 
 \* Scenario export: one history per distinct final state (GEN configurations)
-Done == steps = MaxSteps
-GenPrint == Done => PrintT(<<"SCN", ToJson(hist)>>)
+Done == steps = setup.depth
+GenPrint == Done => PrintT(<<"SCN", ToJson([mode |-> setup.mode, names |-> setup.names, hist |-> hist])>>)
 =============================================================================
